@@ -81,3 +81,15 @@ Proof. vm_compute. reflexivity. Qed.
 Theorem parse_options_uses_known :
   forallb (fun p => String.eqb (snd p) "<computed>" || match model_spec (snd p) with Some _ => true | None => false end) Facts.parse_options_uses = true.
 Proof. vm_compute. reflexivity. Qed.
+
+(* ---- more constants of the source: parameter names, element tables, export formats, expansion limits ---- *)
+Definition switch_of (f : string) : list (list string) :=
+  match find (fun p => String.eqb (fst p) f) Facts.string_switches with Some p => snd p | None => [] end.
+Theorem known_params_agree : nth_error (switch_of "frundis.macroXset") 0 = Some known_params /\ nth_error (switch_of "frundis.macroXset") 1 = Some rendered_params.
+Proof. vm_compute. split; reflexivity. Qed.
+Theorem element_tables_agree : switch_of "xhtml.Xdtag" = [flow_elems] /\ switch_of "xhtml.Xmtag" = [phrasing_elems].
+Proof. vm_compute. split; reflexivity. Qed.
+Theorem valid_formats_agree : Facts.valid_formats = valid_formats.
+Proof. reflexivity. Qed.
+Theorem expansion_limits_agree : N.of_nat max_macro_expansions = Facts.max_macro_expansions /\ N.of_nat max_macro_args_size = Facts.max_macro_args_size.
+Proof. vm_compute. split; reflexivity. Qed.
